@@ -457,11 +457,13 @@ template <class T> static void accum_history(Ctx& c, const char* tn) {
   T last_big = 0;
   auto setT = [&](ref::MP& m, T v) { if (sizeof(T) == 4) mpfr_set_flt(m.v, (float)v, MPFR_RNDN); else mpfr_set_d(m.v, (double)v, MPFR_RNDN); };
   const double lim = sizeof(T) == 4 ? 1e15 : 1e120;
-  int done = 0;
+  int done = 0; bool flagged_lead = false;
   for (int i = 0; i < nops; ++i, ++done) {
     int op = (int)r.below(20);
     T y;
-    if (style == 0) y = (i & 1) && r.coin(0.7) ? -last_big * (T)(1 + r.uniform(-1e-3, 1e-3)) : (T)(r.sign() * r.logu(1e-10, 1e10));
+    if (style == 0) y = (i & 1) && r.coin(0.7) ? (r.coin(0.3) ? (T)acc() : -last_big * (T)(1 + r.uniform(-1e-3, 1e-3))) : (T)(r.sign() * r.logu(1e-10, 1e10));
+    // (in the cancelling style, "y = acc()" followed by -= cancels the leading word exactly and leaves only the low word)
+    if (style == 0 && y == (T)acc() && y != 0) op = 12;
     else if (style == 1) y = (T)r.logu(1e-8, 1e8);
     else if (style == 2) y = (T)(r.sign() * r.logu(sizeof(T) == 4 ? 1e-20 : 1e-100, sizeof(T) == 4 ? 1e12 : 1e100));
     else y = (T)(r.uniform(-1, 1) * 1e13);
@@ -481,6 +483,16 @@ template <class T> static void accum_history(Ctx& c, const char* tn) {
       acc.remainder(m); mpfr_sub(E.v, E.v, k.v, MPFR_RNDN); oc = 'r'; B += unit * std::fabs((double)acc());
     }
     if (ops.size() < 200) ops += oc;
+    // the reported sum (leading word) never loses the whole sum: |acc() - exact| <= |acc()| (the low word is at most
+    // comparable to the leading one); in particular acc() == 0 only if the accumulator holds 0
+    {
+      setT(tmp, acc()); mpfr_sub(tmp.v, tmp.v, E.v, MPFR_RNDN); mpfr_abs(tmp.v, tmp.v, MPFR_RNDN);
+      double dev = tmp.d(), lead = std::fabs((double)acc());
+      if (!(dev <= lead + 2 * B + (double)std::numeric_limits<T>::denorm_min()) && !flagged_lead) {
+        flagged_lead = true;
+        c.viol(std::string("oracle:C16/") + tn + "/accumulator-reported-sum-lost", cls, J().i("op_index", i).str("ops_prefix", ops).f("reported", (double)acc()).f("exact", E.d()));
+      }
+    }
     if (c.only) std::fprintf(stderr, "op %d %c y=%.17g s=%.17g E=%s B=%.3g\n", i, oc, (double)y, (double)acc(), E.str(25).c_str(), B);
     if (!(std::fabs((double)acc()) < lim)) break;      // stay far from overflow
   }
